@@ -595,3 +595,314 @@ pub proof fn lemma_tz_lt(c: u64, k: nat)
         lemma_tz_lt(c / 2, (k - 1) as nat);
     }
 }
+
+// ---- the stack's chaining values ---------------------------------------------------------------------
+// st is the spine decomposition (with st.len() entries) of the complete chunks x starting at counter t0
+pub open spec fn sp_stack_ok(st: Seq<SpCv>, x: Seq<u8>, t0: u64, key: Seq<u32>, flags: u8) -> bool
+    decreases st.len(),
+{
+    if st.len() == 0 {
+        x.len() == 0
+    } else if st.len() == 1 {
+        x.len() >= 1024 && x.len() % 1024 == 0 && st[0] == sp_subtree_cv(x, t0, key, flags)
+    } else {
+        let l = sp_left_len(x.len()) as int;
+        &&& x.len() >= 2048
+        &&& x.len() % 1024 == 0
+        &&& st[0] == sp_subtree_cv(x.subrange(0, l), t0, key, flags)
+        &&& sp_stack_ok(st.subrange(1, st.len() as int), x.subrange(l, x.len() as int), (t0 + l / 1024) as u64, key, flags)
+    }
+}
+
+// unfolding of sp_stack_ok
+pub proof fn lemma_stack_ok_unfold(st: Seq<SpCv>, x: Seq<u8>, t0: u64, key: Seq<u32>, flags: u8)
+    requires
+        sp_stack_ok(st, x, t0, key, flags),
+        st.len() >= 1,
+    ensures
+        x.len() >= 1024 * st.len(),
+        x.len() % 1024 == 0,
+        st.len() == 1 ==> st[0] == sp_subtree_cv(x, t0, key, flags),
+        st.len() >= 2 ==> ({
+            let l = sp_left_len(x.len()) as int;
+            &&& 1024 <= l < x.len()
+            &&& l % 1024 == 0
+            &&& st[0] == sp_subtree_cv(x.subrange(0, l), t0, key, flags)
+            &&& sp_stack_ok(st.subrange(1, st.len() as int), x.subrange(l, x.len() as int), (t0 + l / 1024) as u64, key, flags)
+        }),
+    decreases st.len(),
+{
+    if st.len() >= 2 {
+        lemma_left_len_bounds(x.len());
+        let l = sp_left_len(x.len()) as int;
+        lemma_stack_ok_unfold(st.subrange(1, st.len() as int), x.subrange(l, x.len() as int), (t0 + l / 1024) as u64, key, flags);
+    }
+}
+
+// merging the two top entries keeps the stack a spine decomposition of the same bytes
+pub proof fn lemma_stack_merge(st: Seq<SpCv>, x: Seq<u8>, t0: u64, key: Seq<u32>, flags: u8)
+    requires
+        st.len() >= 2,
+        sp_stack_ok(st, x, t0, key, flags),
+        t0 + x.len() / 1024 <= 0x1_0000_0000_0000_0000,
+    ensures
+        sp_stack_ok(
+            st.subrange(0, st.len() - 2).push(sp_parent_cv(st[st.len() - 2], st[st.len() - 1], key, flags)),
+            x, t0, key, flags),
+    decreases st.len(),
+{
+    let n = st.len() as int;
+    let p = sp_parent_cv(st[n - 2], st[n - 1], key, flags);
+    let m = st.subrange(0, n - 2).push(p);
+    lemma_stack_ok_unfold(st, x, t0, key, flags);
+    let l = sp_left_len(x.len()) as int;
+    let rest = st.subrange(1, n);
+    let xr = x.subrange(l, x.len() as int);
+    let t1 = (t0 + l / 1024) as u64;
+    if n == 2 {
+        assert(rest[0] == st[1]);
+        lemma_stack_ok_unfold(rest, xr, t1, key, flags);
+        assert(sp_num_chunks(x.len()) == x.len() / 1024);
+        lemma_subtree_split(x, t0, key, flags);
+        assert(p == sp_subtree_cv(x, t0, key, flags));
+        assert(m =~= seq![p]);
+        assert(m.len() == 1);
+        assert(sp_stack_ok(m, x, t0, key, flags));
+    } else {
+        lemma_stack_merge(rest, xr, t1, key, flags);
+        assert(rest[rest.len() - 2] == st[n - 2]);
+        assert(rest[rest.len() - 1] == st[n - 1]);
+        let mr = rest.subrange(0, rest.len() - 2).push(p);
+        assert(m.subrange(1, m.len() as int) =~= mr);
+        assert(m[0] == st[0]);
+        assert(m.len() >= 2);
+        assert(sp_stack_ok(m, x, t0, key, flags));
+    }
+}
+
+// numeric facts used when descending one level of a strictly decreasing stack
+pub open spec fn sp_first_size(t: nat, n: nat) -> nat {
+    if n == 1 { t } else { sp_lp2(t) }
+}
+
+pub proof fn lemma_sizes_descend(t: nat, n: nat, s: nat)
+    requires
+        n >= 1,
+        sq_dec(sp_sizes(t, n)),
+        sp_is_pow2(s as int),
+        s <= sp_sizes(t, n).last() || s == 1,
+    ensures
+        ({
+            let a = sp_first_size(t, n);
+            &&& sp_is_pow2(a as int)
+            &&& 1 <= a <= t
+            &&& sp_lp2(t + s) == a
+            &&& (n == 1 ==> a == t)
+            &&& (n >= 2 ==> t - a >= 1 && sp_lp2(t) == a
+                    && sq_dec(sp_sizes((t - a) as nat, (n - 1) as nat))
+                    && sp_sizes((t - a) as nat, (n - 1) as nat).last() == sp_sizes(t, n).last())
+        }),
+{
+    lemma_sizes_len(t, n);
+    lemma_sizes_sum(t, n);
+    let sz = sp_sizes(t, n);
+    assert(sp_is_pow2(sz[sz.len() - 1] as int));
+    if n == 1 {
+        assert(sz[0] == t);
+        lemma_lp2_concat(t, s);
+    } else {
+        lemma_lp2(t);
+        let a = sp_lp2(t);
+        let r = sp_sizes((t - a) as nat, (n - 1) as nat);
+        lemma_sizes_len((t - a) as nat, (n - 1) as nat);
+        assert(sz == seq![a] + r);
+        lemma_dec_tail(a, r);
+        lemma_sizes_sum((t - a) as nat, (n - 1) as nat);
+        lemma_dec_sum_bound(r);
+        assert(r.last() == sz.last());
+        lemma_pow2_gap(r[0] as int, a as int);
+        lemma_lp2_unique(t + s, a as int);
+    }
+}
+
+// pushing the chaining value of the next s chunks
+pub proof fn lemma_stack_push(st: Seq<SpCv>, x: Seq<u8>, w: Seq<u8>, t0: u64, key: Seq<u32>, flags: u8, s: nat, cv: SpCv)
+    requires
+        sp_stack_ok(st, x, t0, key, flags),
+        x.len() % 1024 == 0,
+        st.len() >= 1 ==> sq_dec(sp_sizes(x.len() / 1024, st.len())) && s <= sp_sizes(x.len() / 1024, st.len()).last(),
+        sp_is_pow2(s as int),
+        w.len() == 1024 * s,
+        cv == sp_subtree_cv(w, (t0 + x.len() / 1024) as u64, key, flags),
+        t0 + (x.len() + w.len()) / 1024 <= 0x1_0000_0000_0000_0000,
+    ensures
+        sp_stack_ok(st.push(cv), x + w, t0, key, flags),
+    decreases st.len(),
+{
+    let n = st.len();
+    let t = x.len() / 1024;
+    let y = x + w;
+    let q = st.push(cv);
+    if n == 0 {
+        assert(y =~= w);
+        assert(q.len() == 1);
+        assert(q[0] == cv);
+    } else {
+        lemma_sizes_descend(t, n, s);
+        lemma_stack_ok_unfold(st, x, t0, key, flags);
+        let a = sp_first_size(t, n);
+        let l = 1024 * a as int;
+        assert(sp_num_chunks(y.len()) == t + s);
+        assert(sp_left_len(y.len()) == l);
+        let t1 = (t0 + l / 1024) as u64;
+        assert(y.len() >= 2048);
+        assert(q.len() >= 2);
+        assert(q[0] == st[0]);
+        if n == 1 {
+            assert(l == x.len());
+            assert(y.subrange(0, l) =~= x);
+            assert(y.subrange(l, y.len() as int) =~= w);
+            assert(q.subrange(1, 2) =~= seq![cv]);
+            assert(sp_stack_ok(seq![cv], w, t1, key, flags));
+        } else {
+            assert(sp_num_chunks(x.len()) == t);
+            assert(sp_left_len(x.len()) == l);
+            let xr = x.subrange(l, x.len() as int);
+            assert(y.subrange(0, l) =~= x.subrange(0, l));
+            assert(y.subrange(l, y.len() as int) =~= xr + w);
+            assert(xr.len() / 1024 == t - a);
+            lemma_stack_push(st.subrange(1, n as int), xr, w, t1, key, flags, s, cv);
+            assert(q.subrange(1, n as int + 1) =~= st.subrange(1, n as int).push(cv));
+        }
+    }
+}
+
+// ---- folding the stack at finalization ------------------------------------------------------------------
+// for i = st.len()-1 down to 0:  top = parent_node(st[i], cv(top))
+pub open spec fn sp_fold(st: Seq<SpCv>, top: SpOut, key: Seq<u32>, flags: u8) -> SpOut
+    decreases st.len(),
+{
+    if st.len() == 0 {
+        top
+    } else {
+        sp_fold(st.drop_last(), sp_parent_out(st.last(), sp_out_cv(top), key, flags), key, flags)
+    }
+}
+
+pub proof fn lemma_fold_cons(a: SpCv, r: Seq<SpCv>, top: SpOut, key: Seq<u32>, flags: u8)
+    ensures
+        sp_fold(seq![a] + r, top, key, flags) == sp_parent_out(a, sp_out_cv(sp_fold(r, top, key, flags)), key, flags),
+    decreases r.len(),
+{
+    let c = seq![a] + r;
+    if r.len() == 0 {
+        assert(c =~= seq![a]);
+        assert(c.drop_last() =~= Seq::<SpCv>::empty());
+        assert(sp_fold(c.drop_last(), sp_parent_out(a, sp_out_cv(top), key, flags), key, flags)
+            == sp_parent_out(a, sp_out_cv(top), key, flags));
+    } else {
+        assert(c.drop_last() =~= seq![a] + r.drop_last());
+        assert(c.last() == r.last());
+        lemma_fold_cons(a, r.drop_last(), sp_parent_out(r.last(), sp_out_cv(top), key, flags), key, flags);
+    }
+}
+
+pub proof fn lemma_subtree_out_cv(x: Seq<u8>, t0: u64, key: Seq<u32>, flags: u8)
+    requires
+        t0 + sp_num_chunks(x.len()) <= 0x1_0000_0000_0000_0000,
+    ensures
+        sp_out_cv(sp_subtree_out(x, t0, key, flags)) == sp_subtree_cv(x, t0, key, flags),
+{
+    if x.len() > 1024 {
+        lemma_subtree_split(x, t0, key, flags);
+    } else {
+        lemma_subtree_one_chunk(x, t0, key, flags);
+    }
+}
+
+// F0: no partial chunk; the stack has at least two entries: the fold that starts with the parent of the
+// two top entries yields the top node of the subtree over x
+pub proof fn lemma_fold_full(st: Seq<SpCv>, x: Seq<u8>, t0: u64, key: Seq<u32>, flags: u8)
+    requires
+        st.len() >= 2,
+        sp_stack_ok(st, x, t0, key, flags),
+        t0 + x.len() / 1024 <= 0x1_0000_0000_0000_0000,
+    ensures
+        sp_fold(st.subrange(0, st.len() - 2), sp_parent_out(st[st.len() - 2], st[st.len() - 1], key, flags), key, flags)
+            == sp_subtree_out(x, t0, key, flags),
+    decreases st.len(),
+{
+    let n = st.len() as int;
+    lemma_stack_ok_unfold(st, x, t0, key, flags);
+    let l = sp_left_len(x.len()) as int;
+    let rest = st.subrange(1, n);
+    let xr = x.subrange(l, x.len() as int);
+    let t1 = (t0 + l / 1024) as u64;
+    let top = sp_parent_out(st[n - 2], st[n - 1], key, flags);
+    if n == 2 {
+        assert(rest[0] == st[1]);
+        lemma_stack_ok_unfold(rest, xr, t1, key, flags);
+        assert(st.subrange(0, 0) =~= Seq::<SpCv>::empty());
+        assert(sp_fold(st.subrange(0, 0), top, key, flags) == top);
+    } else {
+        lemma_fold_full(rest, xr, t1, key, flags);
+        assert(rest[rest.len() - 2] == st[n - 2]);
+        assert(rest[rest.len() - 1] == st[n - 1]);
+        assert(st.subrange(0, n - 2) =~= seq![st[0]] + rest.subrange(0, rest.len() - 2));
+        lemma_fold_cons(st[0], rest.subrange(0, rest.len() - 2), top, key, flags);
+        assert(sp_num_chunks(xr.len()) == xr.len() / 1024);
+        lemma_subtree_out_cv(xr, t1, key, flags);
+    }
+}
+
+// F1: a non-empty partial (or full, not yet finalized) last chunk y on top of a strictly decreasing stack
+pub proof fn lemma_fold_partial(st: Seq<SpCv>, x: Seq<u8>, y: Seq<u8>, t0: u64, key: Seq<u32>, flags: u8)
+    requires
+        sp_stack_ok(st, x, t0, key, flags),
+        x.len() % 1024 == 0,
+        st.len() >= 1 ==> sq_dec(sp_sizes(x.len() / 1024, st.len())),
+        1 <= y.len() <= 1024,
+        t0 + x.len() / 1024 + 1 <= 0x1_0000_0000_0000_0000,
+    ensures
+        sp_fold(st, sp_chunk_out(key, y, (t0 + x.len() / 1024) as u64, flags), key, flags)
+            == sp_subtree_out(x + y, t0, key, flags),
+    decreases st.len(),
+{
+    let n = st.len();
+    let t = x.len() / 1024;
+    let z = x + y;
+    let top = sp_chunk_out(key, y, (t0 + t) as u64, flags);
+    if n == 0 {
+        assert(z =~= y);
+    } else {
+        lemma_pow2_basic();
+        lemma_sizes_descend(t, n, 1);
+        lemma_stack_ok_unfold(st, x, t0, key, flags);
+        let a = sp_first_size(t, n);
+        let l = 1024 * a as int;
+        assert(sp_num_chunks(z.len()) == t + 1);
+        assert(sp_left_len(z.len()) == l);
+        let xr = x.subrange(l, x.len() as int);
+        let t1 = (t0 + l / 1024) as u64;
+        assert(z.subrange(0, l) =~= x.subrange(0, l));
+        assert(z.subrange(l, z.len() as int) =~= xr + y);
+        let rest = st.subrange(1, n as int);
+        if n == 1 {
+            assert(x.subrange(0, l) =~= x);
+            assert(xr.len() == 0);
+            assert(rest.len() == 0);
+            assert(sp_stack_ok(rest, xr, t1, key, flags));
+        } else {
+            assert(sp_num_chunks(x.len()) == t);
+            assert(sp_left_len(x.len()) == l);
+        }
+        assert(xr.len() / 1024 == t - a);
+        assert((t1 + xr.len() / 1024) as u64 == (t0 + t) as u64);
+        lemma_fold_partial(rest, xr, y, t1, key, flags);
+        assert(st =~= seq![st[0]] + rest);
+        lemma_fold_cons(st[0], rest, top, key, flags);
+        assert(sp_num_chunks((xr + y).len()) == t - a + 1);
+        lemma_subtree_out_cv(xr + y, t1, key, flags);
+        assert(z.len() > 1024);
+    }
+}
